@@ -109,6 +109,12 @@ func c06gen(r *gen.R, testing bool) c06case {
 		t := r.Str(gen.StrOpt{HostilePc: 100})
 		c.kvs = append(c.kvs, gen.KV{Key: "zzfail~", Val: gen.V{Kind: "textmfail", Text: t, Go: gen.TextMFail{S: t}}})
 	}
+	if r.P(5) {
+		// a value of a DEFINED string type without methods (type Status string) that holds hostile text: whatever is printed
+		// for it, it contributes no raw escape or control byte
+		t := r.Str(gen.StrOpt{HostilePc: 100})
+		c.kvs = append(c.kvs, gen.KV{Key: "zzstatus~", Val: gen.V{Kind: "textmfail", Text: t, Go: c06status(t)}})
+	}
 	c.ts = r.Time()
 	if r.P(3) {
 		c.ts = time.Time{} // the zero instant is an instant like any other: the call carries it
@@ -306,7 +312,11 @@ func neutralV(v gen.V) gen.V {
 		v.Go = gen.TextM{S: v.Text}
 	case "textmfail":
 		v.Text = neutralS(v.Text)
-		v.Go = gen.TextMFail{S: v.Text}
+		if _, ok := v.Go.(c06status); ok {
+			v.Go = c06status(v.Text)
+		} else {
+			v.Go = gen.TextMFail{S: v.Text}
+		}
 	case "strs":
 		s := make([]string, len(v.Elems))
 		es := make([]gen.V, len(v.Elems))
@@ -595,6 +605,9 @@ func c06main(c *Ctx) {
 		}
 	})
 }
+
+// c06status is a defined string type without methods.
+type c06status string
 
 // c06chunkW takes at most 48 bytes of what it is given and says so, without an error.
 type c06chunkW struct{}
